@@ -199,6 +199,28 @@ func (c *Catalog) Apply(o Op) bool {
 			}
 		}
 		return true
+	case "renameColl": // a <-> b: the record keeps its id and its creation time, only the name changes
+		other := map[string]string{"a": "b", "b": "a"}[o.Name]
+		x := c.LiveColl(o.DB, o.Name)
+		if other == "" || x == nil || x.State != "created" || c.LiveColl(o.DB, other) != nil {
+			return false
+		}
+		// (scope: collections without user partitions, on either side of the rename)
+		for _, p := range c.Parts {
+			if p.State == "tombstone" {
+				continue
+			}
+			if p.Coll == x.ID {
+				return false
+			}
+			for _, y := range c.Colls {
+				if y.ID == p.Coll && y.DB == o.DB && y.Name == other && y.State != "tombstone" {
+					return false
+				}
+			}
+		}
+		x.Name = other
+		return true
 	case "createPart":
 		x := c.NewestColl(o.DB, o.Name, "created")
 		if x == nil || c.LivePart(x.ID, "p") != nil {
